@@ -1,7 +1,9 @@
 ''' C11 -- Forwarding preserves the bundle and updates only the hop-by-hop blocks.
 
   1. proofs: coq/Props/C11.v over coq/Model/BpFwd.v (+ Model/Bundle.v), re-checked by coqc; every statement is
-     about  decode_bundle (encode_bundle out)  - the OCTETS handed to the convergence layer;
+     about  decode_bundle (encode_bundle out)  - the OCTETS handed to the convergence layer; plus the translator tie
+     translate/targets/fwdsteps.py -> coq/Gen/FwdSteps.v (step structure of Agent._do_fwd, re-read from the source on
+     every run) with the C11_tie_* theorems: the model performs exactly the translated steps;
   2. correspondence: generated process histories (1..4 received bundles routed "forward", fed to ONE real
      bp.agent.Agent in a fresh process state) x transmit-route tables; the octets each bundle makes the agent
      hand to a fake convergence layer (or the way it fails to) are compared with BpFwd.run_case evaluated in
@@ -760,6 +762,11 @@ def main():
         chk.finish(rule='replay of one recorded case (real agent, model, oracle)')
 
     props_ok = chk.coq_props()
+    # translator tie: the step structure of Agent._do_fwd is re-read from the source on every run (Gen/FwdSteps.v);
+    # the C11_tie_* theorems of Props/C11.v are stated over it.  A failed translation is a broken tie.
+    (tr_ok, tr_err) = chk.translate_ok('fwdsteps')
+    chk.obligation('translator:fwdsteps', tr_ok, tr_err)
+    props_ok = props_ok and tr_ok
 
     # corpus first (witnesses of the pending / known / fixed findings), then directed, then random; evaluated as
     # one batch (one wave of parallel coqc shards)
